@@ -1032,6 +1032,16 @@ fn exec(w: &mut World, op: &Op, cx: &mut Ctx) {
     if let Some(which) = check_tx {
         check_memory_vs_log(w, cx, which);
     }
+    // oracle: nothing is pending that begin() did not hand out (a refused begin leaves no trace)
+    {
+        let known = w.book.txs.iter().filter(|t| w.c().get(t.real).is_some()).count()
+            + usize::from(w.c().get(FAKE_TX_REAL).is_some());
+        if known != w.c().pending_count() {
+            violation(cx, w, "tensor_chain.distributed_tx.memory/unknown_pending_transaction",
+                "the coordinator holds a pending transaction that no successful begin() returned (a begin whose WAL write failed must leave nothing behind)",
+                json!({"known_pending": known, "pending_count": w.c().pending_count()}));
+        }
+    }
     let count_l = w.cap.is_some();
     let shown = if rotated { format!("~ {}", canon_runs(&toks, count_l)) } else { canon_runs(&toks, count_l) };
     let mut impl_ans = format!("{impl_res} | {shown} | {}", w.digest());
@@ -1630,6 +1640,12 @@ fn directed(cx: &mut Ctx) {
             Op::Begin { parts: vec![0, 1], xflag: true }, Op::Vote { t: 0, shard: 0, v: yes.clone() }, Op::Vote { t: 0, shard: 1, v: yes.clone() },
             Op::Flush,
         ]),
+        ("empty-participants-prepared-by-a-foreign-vote", vec![
+            Op::Begin { parts: vec![], xflag: false }, Op::Vote { t: 0, shard: 5, v: yes.clone() },
+        ]),
+        ("duplicate-participants", vec![
+            Op::Begin { parts: vec![0, 0], xflag: false }, Op::Vote { t: 0, shard: 0, v: yes.clone() }, Op::RecoverMem, Op::Decisions,
+        ]),
         ("two-tx-one-committed-one-prepared", vec![
             b2.clone(), Op::Begin { parts: vec![0], xflag: false },
             Op::Vote { t: 0, shard: 0, v: yes.clone() }, Op::Vote { t: 1, shard: 0, v: yes.clone() }, Op::Vote { t: 0, shard: 1, v: yes.clone() },
@@ -1895,7 +1911,11 @@ fn direct_token(e: &TxWalEntry) -> String {
 }
 
 fn direct_wal(cx: &mut Ctx, r: &mut Rng, rounds: u64) {
-    for _ in 0..rounds {
+    for round_no in 0..rounds {
+        // one round in six with `enable_checksums = false`: the checksum field is written as 0 and
+        // replay skips the comparison (the model's `crc := const 0` instance)
+        let no_crc = round_no % 6 == 5;
+        let dcfg = || if no_crc { WalConfig { enable_checksums: false, ..wal_cfg(None) } } else { wal_cfg(None) };
         let dir = tmp_dir();
         let path = dir.path().join("d.wal");
         let mut expect: Vec<(String, usize)> = vec![]; // token, end offset
@@ -1905,7 +1925,7 @@ fn direct_wal(cx: &mut Ctx, r: &mut Rng, rounds: u64) {
         cx.m.ask("reset_dict");
         let mut defined: HashSet<Vec<u8>> = HashSet::new();
         for round in 0..=crashes {
-            let mut wal = TxWal::open_with_config(&path, wal_cfg(None)).unwrap();
+            let mut wal = TxWal::open_with_config(&path, dcfg()).unwrap();
             let len_open = std::fs::metadata(&path).unwrap().len() as usize;
             // replay right after open
             let k = if round == 0 { r.below(6) } else { 1 + r.below(4) };
@@ -1924,7 +1944,10 @@ fn direct_wal(cx: &mut Ctx, r: &mut Rng, rounds: u64) {
                 }
                 // frame layout + crc against the model's own encoder
                 let frame = &bytes[before..];
-                let m_frame = cx.m.ask(&format!("frame {}", hex(&p)));
+                let m_frame = cx.m.ask(&format!("{} {}", if no_crc { "frame0" } else { "frame" }, hex(&p)));
+                if no_crc {
+                    cx.rep.hit("direct.append.no_checksum");
+                }
                 cx.rep.compare("frame", || json!({"payload": hex(&p)}), &hex(frame), &m_frame);
                 let m_crc = cx.m.ask(&format!("crc {}", hex(&p)));
                 cx.rep.compare("crc", || json!({"payload": hex(&p)}), &crc32fast::hash(&p).to_string(), &m_crc);
@@ -1973,7 +1996,7 @@ fn direct_wal(cx: &mut Ctx, r: &mut Rng, rounds: u64) {
             }
             trace.push(format!("crash cut={n}/{}", bytes.len()));
             let m_v = cx.m.ask(&format!("valid_len {}", hex(&bytes[..n])));
-            let w2 = TxWal::open_with_config(&path, wal_cfg(None)).unwrap();
+            let w2 = TxWal::open_with_config(&path, dcfg()).unwrap();
             let len2 = std::fs::metadata(&path).unwrap().len();
             cx.rep.compare("wal.valid_len", || json!({"trace": trace}), &len2.to_string(), &m_v);
             if len2 as usize != whole {
@@ -2048,7 +2071,7 @@ fn main() {
         "op.recover_mem", "op.decisions", "op.force", "res.force.ok", "res.force.not_found", "res.force.cannot_commit",
         "res.recover_mem.timed_out_some", "res.recover_mem.commit_some", "res.wal_err", "res.commit.wal_err", "res.abort.wal_err",
         "res.vote.wal_failed", "model.need_sizes", "oracle.memory_vs_log", "scenario.capped", "wal.rotated",
-        "rot.prepared_tx_dropped", "directed.stale-handle",
+        "rot.prepared_tx_dropped", "directed.stale-handle", "direct.append.no_checksum",
     ]
     .iter()
     .map(|s| s.to_string())
